@@ -233,7 +233,7 @@ def _sig_closing_tag_alone_after_marker(case: dict, f: Failure) -> bool:
         return False
     x, width, semantic = _case_xo(case)
     out = _fmt_c01(x, width, semantic)
-    closing = _re.compile(r"^(\{% /|\{# /|\{\{ /|<!-- /).*(%\}|#\}|\}\}|-->)$")
+    closing = _re.compile(r"^(\{% /|\{# /|\{\{ /|<!-- /).*(%\}|#\}|\}\}|-->)\\?$")
     ol = out.split("\n")
     src = {l.strip() for l in x.split("\n")}
     return any(closing.match(l) and l.strip() not in src and i >= 2 and ol[i - 1] == "" and _re.match(r"^[ >]*([-*+]|\d+[.)]) ", ol[i - 2]) for i, l in enumerate(ol))
@@ -244,12 +244,43 @@ def _sig_task_marker_before_hard_break(case: dict, f: Failure) -> bool:
     the line end): the output writes "[ ]\\", which is no checkbox any more."""
     if case.get("kind", "doc") != "doc":
         return False
-    return _re.search(r"^[ \t>]*(?:(?:[-*+]|\d+[.)])[ \t]+)?\[[ xX]\](?:[ \t]{2,}|[ \t]*\\)$", case["text"], _re.M) is not None
+    return _re.search(r"^[ \t>]*(?:(?:[-*+]|\d+[.)])[ \t]+)*\[[ xX]\](?:[ \t]{2,}|[ \t]*\\)$", case["text"], _re.M) is not None
+
+
+def _sig_table_first_in_item(case: dict, f: Failure) -> bool:
+    """Same root cause as C02's finding of this name: a table that begins on a list marker line (read by Marko only when
+    the delimiter row is another item's marker line) is written properly and then not read back as a table."""
+    if case.get("kind", "doc") != "doc":
+        return False
+    x, width, semantic = _case_xo(case)
+    out = _fmt_c01(x, width, semantic)
+    return _re.search(r"^[ >]*(?:[-*+]|\d+[.)])[ \t]+(?:(?:[-*+]|\d+[.)])[ \t]+)*\|.*\|\n[ >]+\|( :?-+:? \|)+$", out, _re.M) is not None
+
+
+_BLOCK_LIKE = _re.compile(r"^[ \t>]*(?:[-*+]|\d{1,9}[.)])(?:[ \t]|$)|^[ \t>]*\|")
+
+
+def _sig_block_like_line_next_to_tag_line(case: dict, f: Failure) -> bool:
+    """Inside one paragraph of the input, a line that starts or ends with a tag delimiter is directly followed or preceded by
+    a line that looks like a list item or table row (there it is paragraph text: a lazy continuation, or a marker that cannot
+    interrupt a paragraph). The tag heuristics keep such a line on its own and set it off by a blank line: it becomes a block."""
+    if case.get("kind", "doc") != "doc":
+        return False
+    lines = case["text"].split("\n")
+    strip = lambda l: _re.sub(r"^[ \t>]*(?:(?:[-*+]|\d{1,9}[.)])[ \t]+)?", "", l)  # noqa: E731
+    for a, b in zip(lines, lines[1:]):
+        if not a.strip() or not b.strip():
+            continue
+        if (_TAG_EDGE.search(strip(a)) and _BLOCK_LIKE.match(b)) or (_TAG_EDGE.search(strip(b)) and _BLOCK_LIKE.match(strip(a))):
+            return True
+    return False
 
 
 DECOMPOSE_KEY = "text"  # several recorded findings in one document: see core.sig_hit
 
 SIGS = {
+    "table_first_block_of_list_item": _sig_table_first_in_item,
+    "block_like_line_next_to_tag_line": _sig_block_like_line_next_to_tag_line,
     "task_marker_before_hard_break": _sig_task_marker_before_hard_break,
     "escaped_backticks_hide_code_span": _sig_escaped_backticks,
     "closing_tag_alone_after_marker_line": _sig_closing_tag_alone_after_marker,
